@@ -77,7 +77,7 @@ AlphaStructA ==
 
 (* with padding, comments, a second identifier and a chunked string        *)
 AlphaStructB ==
-  AlphaStructA \o << EvPad, EvCmt, [EvCmt EXCEPT !.cmtok = FALSE], EvRT("b"), EvRec("b"), EvVer(1),
+  AlphaStructA \o << EvPad, EvCmt, [EvCmt EXCEPT !.pok = FALSE], EvRT("b"), EvRec("b"), EvVer(1),
                      EvABegin("string"), EvChunk(1, FALSE), EvData(<<98>>) >>
 
 (* C13: markers and references *)
@@ -93,7 +93,7 @@ EvSp(m, dt, sp) == [E0 EXCEPT !.m = m, !.dt = dt, !.sp = sp]
 EvK(m, dt, k)   == [E0 EXCEPT !.m = m, !.dt = dt, !.k = k]
 AlphaAll ==
   << EvPad, EvCmt, [EvCmt EXCEPT !.multi = TRUE, !.bytes = <<47, 42, 42, 47>>],
-     [EvCmt EXCEPT !.cmtok = FALSE], [EvCmt EXCEPT !.multi = TRUE, !.cmtok = FALSE], EvNull,
+     [EvCmt EXCEPT !.pok = FALSE], [EvCmt EXCEPT !.multi = TRUE, !.pok = FALSE], EvNull,
      EvBool("OnTrue", "true"), EvBool("OnFalse", "false"), EvBool("OnBoolean", "true"),
      EvInt("pint", "1"), EvInt("nint", "-1"), EvInt("int", "-1"),
      EvInt("bigint", "1180591620717411303424"), EvInt("bigint", "-7"), EvNilBig,
@@ -107,6 +107,7 @@ AlphaAll ==
      EvSp("OnBigDecimalFloat", "float", "snan"),
      EvUid("000102030405060708090a0b0c0d0e0f"), EvNan, EvSp("OnNan", "nan", "snan"),
      EvDate("2000-01-01", <<50,48,48,48,45,48,49,45,48,49>>),
+     [EvDate("", <<>>) EXCEPT !.sp = "nil"], [EvDate("2000-01-01", <<50,48,48,48,45,48,49,45,48,49>>) EXCEPT !.pok = FALSE],
      [EvDate("12:30:01.000000005/A:Europe/Berlin", <<>>) EXCEPT !.bytes = <<>>],
      EvList, EvMap, EvNode, EvEdge, EvEnd, EvRec("a"), EvMark("a"), EvRef("a"), EvMark("b"),
      EvStr(<<97, 98>>), EvStrA(<<97>>), EvRid(<<97>>), EvSArr("rref", <<97>>),
